@@ -17,6 +17,7 @@ package main
 import (
 	"context"
 	"encoding/json"
+	"errors"
 	"fmt"
 	"io"
 	"os"
@@ -50,8 +51,15 @@ func (e *listEx) Requirements() *plugin.Capabilities { return &plugin.Capabiliti
 func (e *listEx) FileRequired(api filesystem.FileAPI) bool {
 	return strings.HasSuffix(api.Path(), ".list")
 }
+
+// unparsable marks a file version on which Extract fails (a truncated write, conflict markers...).
+const unparsable = "<<<<<<<"
+
 func parseList(b []byte, loc string) []*extractor.Package {
 	var out []*extractor.Package
+	if strings.Contains(string(b), unparsable) {
+		return nil
+	}
 	for _, l := range strings.Split(string(b), "\n") {
 		n, v, ok := strings.Cut(strings.TrimSpace(l), " ")
 		if ok {
@@ -64,6 +72,10 @@ func (e *listEx) Extract(_ context.Context, in *filesystem.ScanInput) (inventory
 	b, err := io.ReadAll(in.Reader)
 	if err != nil {
 		return inventory.Inventory{}, err
+	}
+	if strings.Contains(string(b), unparsable) {
+		// a version of the file the extractor cannot parse: it reports nothing, so the view holds no package
+		return inventory.Inventory{}, errors.New("malformed package list")
 	}
 	return inventory.Inventory{Packages: parseList(b, in.Path)}, nil
 }
@@ -325,10 +337,16 @@ type phase struct {
 	pool  []string
 	depth int
 	exs   []*listEx
+	bad   bool // the alphabet also has a write of a version the extractor fails on
 }
 
 func bfs(r *ev.Run, ph phase) (complete bool, maxDepth int) {
 	ops := alphabet(ph.files, ph.pool)
+	if ph.bad {
+		for _, f := range ph.files {
+			ops = append(ops, Op{Kind: "write", Set: map[string]string{f: unparsable + "\nA 1\n"}})
+		}
+	}
 	type state struct{ hist []Op }
 	frontier := []state{{nil}}
 	seen := map[string]bool{}
@@ -424,14 +442,17 @@ func main() {
 		os.Exit(0)
 	}
 	phases := []phase{
-		{"one-file", []string{"etc/f.list"}, []string{"A 1", "B 2"}, ev.Pick(r, 5, 7), one},
+		{"one-file", []string{"etc/f.list"}, []string{"A 1", "B 2"}, ev.Pick(r, 5, 7), one, false},
 		// the same package name in two versions: an in-place upgrade / downgrade of one package
-		{"one-file-two-versions", []string{"etc/f.list"}, []string{"A 1", "A 2"}, ev.Pick(r, 5, 6), one},
-		{"two-files", []string{"etc/f.list", "etc/g.list"}, []string{"A 1", "B 2"}, ev.Pick(r, 3, 5), one},
-		{"one-file-two-extractors", []string{"etc/f.list"}, []string{"A 1", "B 2"}, ev.Pick(r, 4, 5), two},
+		{"one-file-two-versions", []string{"etc/f.list"}, []string{"A 1", "A 2"}, ev.Pick(r, 5, 6), one, false},
+		{"two-files", []string{"etc/f.list", "etc/g.list"}, []string{"A 1", "B 2"}, ev.Pick(r, 3, 5), one, false},
+		{"one-file-two-extractors", []string{"etc/f.list"}, []string{"A 1", "B 2"}, ev.Pick(r, 4, 5), two, false},
+		// a layer may hold a version of the file on which extraction FAILS: that view has no package,
+		// so the layer that repairs the file introduces it
+		{"one-file-with-unparsable-version", []string{"etc/f.list"}, []string{"A 1"}, ev.Pick(r, 5, 6), one, true},
 	}
 	if r.Thorough() {
-		phases = append(phases, phase{"one-file-three-packages", []string{"etc/f.list"}, []string{"A 1", "B 2", "C 3"}, 5, one})
+		phases = append(phases, phase{"one-file-three-packages", []string{"etc/f.list"}, []string{"A 1", "B 2", "C 3"}, 5, one, false})
 	}
 	allComplete := true
 	bounds := map[string]int{}
@@ -454,7 +475,7 @@ func main() {
 	os.RemoveAll(base)
 	r.Set("depth_completed_per_phase", bounds)
 	r.Assume("the oracle extracts each file independently from the implementation's own image-up-to-layer views (the property is stated over them); the views themselves are C04's subject")
-	r.Finish("BFS over layer histories: per layer one of {touch unrelated file, empty history entry, write file with each subset of the package pool, delete file (whiteout), delete parent directory}; phases: one file x 2 packages, one file x 2 versions of one package, two files (same package in both = same PURL at two locations), one file read by two extractors, (thorough) one file x 3 packages; plus every one-file history of depth <=3/4 with one surplus history entry that is not flagged empty (inconsistent history: numbering and presence of the command are don't-care, but diff id, index in the implementation's own chain and the identity of a reported command are checked); every history rebuilt as a real image, scanned by ScanContainer and compared with brute-force attribution; states = distinct (views, diffs) keys, transitions = histories executed, non-trivial = states of depth >=3 reporting >=1 package", allComplete)
+	r.Finish("BFS over layer histories: per layer one of {touch unrelated file, empty history entry, write file with each subset of the package pool, delete file (whiteout), delete parent directory}; phases: one file x 2 packages, one file x 2 versions of one package, two files (same package in both = same PURL at two locations), one file read by two extractors, one file with a version on which extraction fails, (thorough) one file x 3 packages; plus every one-file history of depth <=3/4 with one surplus history entry that is not flagged empty (inconsistent history: numbering and presence of the command are don't-care, but diff id, index in the implementation's own chain and the identity of a reported command are checked); every history rebuilt as a real image, scanned by ScanContainer and compared with brute-force attribution; states = distinct (views, diffs) keys, transitions = histories executed, non-trivial = states of depth >=3 reporting >=1 package", allComplete)
 }
 
 // phantomVerdict: histories that are inconsistent with the layer list (one surplus entry that is not
